@@ -7,14 +7,19 @@
 (* stop the monitor (reads do not change state): it is printed as          *)
 (* <<"MISMATCH", line, op, expected>> so that the rest of the trace is      *)
 (* still checked.  db dumps after Commit / RevertDiff must equal the model. *)
+(*                                                                         *)
+(* Snapshots: see StagedStore.tla.  `sure` = snapshots whose restore may    *)
+(* not fail, `dead` = deleted ones.  A restore that succeeds on a deleted   *)
+(* id has no defined result: the monitor stops comparing until the next     *)
+(* reset (`havoc`, reported as <<"HAVOC", line>>).                          *)
 (***************************************************************************)
 EXTENDS StagedStore, Json
 
 CONSTANT TraceFile
 TraceLog == ndJsonDeserialize(TraceFile)
 
-VARIABLES l, db, eff, snaps, prev
-tvars == <<l, db, eff, snaps, prev>>
+VARIABLES l, db, eff, snaps, prev, sure, dead, cnt, havoc
+tvars == <<l, db, eff, snaps, prev, sure, dead, cnt, havoc>>
 
 Ev == TraceLog[l]
 ToMap(s) == {<<s[i][1], s[i][2]>> : i \in 1..Len(s)}
@@ -22,56 +27,91 @@ Norm(s) == [i \in 1..Len(s) |-> <<s[i][1], s[i][2]>>]
 B(b) == IF b THEN 1 ELSE 0
 
 Report(op, exp) == PrintT(<<"MISMATCH", l, op, ToJson(exp)>>)
-Check(op, got, exp) == IF got = exp THEN TRUE ELSE Report(op, exp)
+Check(op, got, exp) == IF havoc \/ got = exp THEN TRUE ELSE Report(op, exp)
 
-TInit == l = 1 /\ db = {} /\ eff = {} /\ snaps = <<>> /\ prev = {}
+TInit == l = 1 /\ db = {} /\ eff = {} /\ snaps = <<>> /\ prev = {} /\ sure = {} /\ dead = {} /\ cnt = 0 /\ havoc = FALSE
+
+NoSnaps == snaps' = <<>> /\ sure' = {} /\ dead' = {}
+SnapsUnchanged == UNCHANGED <<snaps, sure, dead, cnt, havoc>>
 
 Step ==
-  LET e == Ev p == IF "view" \in DOMAIN e THEN e.view ELSE <<>> IN
+  LET e == Ev
+      p == IF "view" \in DOMAIN e THEN e.view ELSE <<>>
+      k == SnapKey(IF "obj" \in DOMAIN e THEN e.obj ELSE 0, IF "id" \in DOMAIN e THEN e.id ELSE 0) IN
   CASE e.op = "reset" ->
-         /\ db' = ToMap(e.db) /\ eff' = ToMap(e.db) /\ snaps' = <<>> /\ prev' = ToMap(e.db)
+         /\ db' = ToMap(e.db) /\ eff' = ToMap(e.db) /\ prev' = ToMap(e.db)
+         /\ NoSnaps /\ cnt' = 0 /\ havoc' = FALSE
     [] e.op = "set" ->
-         /\ eff' = Put(eff, p \o e.k, e.v) /\ UNCHANGED <<db, snaps, prev>>
+         /\ eff' = Put(eff, p \o e.k, e.v) /\ UNCHANGED <<db, prev>> /\ SnapsUnchanged
     [] e.op = "del" ->
-         /\ eff' = Rem(eff, p \o e.k) /\ UNCHANGED <<db, snaps, prev>>
+         /\ eff' = Rem(eff, p \o e.k) /\ UNCHANGED <<db, prev>> /\ SnapsUnchanged
     [] e.op = "get" ->
-         /\ Check("get", e.res, GetR(eff, p, e.k)) /\ UNCHANGED <<db, eff, snaps, prev>>
+         /\ Check("get", e.res, GetR(eff, p, e.k)) /\ UNCHANGED <<db, eff, prev>> /\ SnapsUnchanged
     [] e.op = "has" ->
-         /\ Check("has", e.res, B(GetR(eff, p, e.k) # -1)) /\ UNCHANGED <<db, eff, snaps, prev>>
+         /\ Check("has", e.res, B(GetR(eff, p, e.k) # -1)) /\ UNCHANGED <<db, eff, prev>> /\ SnapsUnchanged
     [] e.op = "range" ->
          /\ Check("range", Norm(e.res), RangeR(eff, p, e.s, e.e, e.limit, e.rev = 1))
-         /\ UNCHANGED <<db, eff, snaps, prev>>
+         /\ UNCHANGED <<db, eff, prev>> /\ SnapsUnchanged
     [] e.op = "iter" ->
          /\ Check("iter", Norm(e.res), IterR(eff, p, e.q, e.limit, e.rev = 1))
-         /\ UNCHANGED <<db, eff, snaps, prev>>
+         /\ UNCHANGED <<db, eff, prev>> /\ SnapsUnchanged
     [] e.op = "dbrange" ->     \* raw db.IterateRange / Reader.IterateRange on the committed contents
          /\ Check("dbrange", Norm(e.res), RangeR(db, <<>>, e.s, e.e, e.limit, e.rev = 1))
-         /\ UNCHANGED <<db, eff, snaps, prev>>
-    [] e.op = "dbiter" ->
+         /\ UNCHANGED <<db, eff, prev>> /\ SnapsUnchanged
+    [] e.op = "dbiter" ->      \* raw db.Iterate / Reader.Iterate
          /\ Check("dbiter", Norm(e.res), IterR(db, <<>>, e.q, e.limit, e.rev = 1))
-         /\ UNCHANGED <<db, eff, snaps, prev>>
+         /\ UNCHANGED <<db, eff, prev>> /\ SnapsUnchanged
+    [] e.op = "dbiterkey" ->   \* raw db.IterateKey / Reader.IterateKey: the keys of the same iteration
+         /\ Check("dbiterkey", e.res, KeysOf(IterR(db, <<>>, e.q, e.limit, e.rev = 1)))
+         /\ UNCHANGED <<db, eff, prev>> /\ SnapsUnchanged
     [] e.op = "snap" ->
-         \* a new snapshot gets an id no live snapshot has (or it would silently replace that snapshot's saved state)
-         /\ Check("snapshot-id-reused", B(e.id \in DOMAIN snaps), 0)
-         /\ snaps' = (e.id :> eff) @@ snaps /\ UNCHANGED <<db, eff, prev>>
+         \* a new snapshot gets an id no live snapshot of that object has (or it would silently replace that snapshot's saved state)
+         /\ Check("snapshot-id-reused", B(k \in sure), 0)
+         /\ snaps' = (k :> [st |-> eff, n |-> cnt]) @@ snaps
+         /\ sure' = sure \cup {k} /\ dead' = dead \ {k} /\ cnt' = cnt + 1
+         /\ UNCHANGED <<db, eff, prev, havoc>>
     [] e.op = "restore" ->
-         /\ Check("restore-err", e.err, B(e.id \notin DOMAIN snaps))
-         /\ IF e.id \in DOMAIN snaps
-            THEN eff' = snaps[e.id] /\ snaps' = [i \in DOMAIN snaps \ {e.id} |-> snaps[i]]
-            ELSE UNCHANGED <<eff, snaps>>
-         /\ UNCHANGED <<db, prev>>
+         IF k \in DOMAIN snaps /\ k \notin dead
+         THEN \* restoring a snapshot returns exactly the staged state at the time of the snapshot; it may fail only
+              \* for a snapshot that was restored before or that is younger than a restored one
+              /\ (IF k \in sure THEN Check("restore-err", e.err, 0) ELSE TRUE)
+              /\ IF e.err = 0
+                 THEN eff' = snaps[k].st /\ sure' = AfterRestore(sure, snaps, k)
+                 ELSE UNCHANGED <<eff, sure>>
+              /\ UNCHANGED <<db, prev, snaps, dead, cnt, havoc>>
+         ELSE \* never taken: nothing to return to, the staged state stays whatever the call answers; deleted: if the call
+              \* succeeds all the same, its result is not defined by the property
+              /\ havoc' = (havoc \/ (e.err = 0 /\ k \in dead /\ PrintT(<<"HAVOC", l>>)))
+              /\ UNCHANGED <<db, eff, prev, snaps, sure, dead, cnt>>
     [] e.op = "delsnap" ->
-         /\ snaps' = [i \in DOMAIN snaps \ {e.id} |-> snaps[i]] /\ UNCHANGED <<db, eff, prev>>
-    [] e.op = "commit" ->      \* Commit + db.Write; the dump of the database must equal eff
+         /\ dead' = dead \cup {k} /\ sure' = sure \ {k}
+         /\ UNCHANGED <<db, eff, prev, snaps, cnt, havoc>>
+    [] e.op = "commit" ->      \* Commit (through the root or any view) + db.Write; the dump of the database must equal eff
          /\ Check("commit-dump", ToMap(e.dump), eff)
          \* the returned diff may list no-op updates; what is required is that its reversal restores db
          /\ Check("commit-diff-reversal",
                   Revert(eff, [added |-> {x : x \in Range(e.added)}, updated |-> ToMap(e.updated), deleted |-> ToMap(e.deleted)]), db)
          /\ Assert(DiffSound(db, eff), "spec: diff reversal")
-         /\ prev' = db /\ db' = eff /\ snaps' = <<>> /\ UNCHANGED eff
-    [] e.op = "revert" ->      \* RevertDiff of the last commit + db.Write
+         /\ prev' = db /\ db' = eff /\ NoSnaps /\ UNCHANGED <<eff, cnt, havoc>>
+    [] e.op = "revert" ->      \* RevertDiff of the last commit (through the root or any view) + db.Write
          /\ Check("revert-dump", ToMap(e.dump), prev)
-         /\ db' = prev /\ eff' = prev /\ snaps' = <<>> /\ UNCHANGED prev
+         /\ db' = prev /\ eff' = prev /\ NoSnaps /\ UNCHANGED <<prev, cnt, havoc>>
+    [] e.op = "bcommit" ->     \* Commit into batchdb.NewWithPrefix(db, batch, e.p) + db.Write
+         /\ Check("batchdb-commit", ToMap(e.dump), BatchCommit(db, eff, e.root, e.p))
+         /\ db' = BatchCommit(db, eff, e.root, e.p) /\ eff' = BatchCommit(db, eff, e.root, e.p)
+         /\ prev' = db /\ NoSnaps /\ UNCHANGED <<cnt, havoc>>
+    [] e.op = "bget" ->        \* batchdb.Get: the committed value under the batchdb prefix
+         /\ Check("batchdb-get", e.res, GetR(db, e.p, e.k)) /\ UNCHANGED <<db, eff, prev>> /\ SnapsUnchanged
+    [] e.op = "bftget" ->      \* liskbft GetBFTParameters / GetGeneratorKeys: the entry valid at height e.h
+         /\ Check("bft-get", e.res, AtHeight(eff, p, e.h)) /\ UNCHANGED <<db, eff, prev>> /\ SnapsUnchanged
+    [] e.op = "bftnext" ->     \* liskbft NextHeightBFTParameters: the first key at or above e.s
+         /\ Check("bft-next", e.res, KeysOf(RangeR(eff, p, e.s, <<255, 255, 255, 255>>, 1, FALSE)))
+         /\ UNCHANGED <<db, eff, prev>> /\ SnapsUnchanged
+    [] e.op = "bftprune" ->    \* liskbft BeforeTransactionsExecute: what must remain in the view (compared by the next range)
+         /\ eff' = PruneBelow(eff, p, e.h) /\ UNCHANGED <<db, prev>> /\ SnapsUnchanged
+    [] e.op = "flush" ->       \* a commit of which only the listed views are modelled
+         /\ Check("commit-dump", ToMap(e.dump), {x \in eff : \E i \in 1..Len(e.views) : HasPrefix(x[1], e.views[i])})
+         /\ prev' = db /\ db' = eff /\ NoSnaps /\ UNCHANGED <<eff, cnt, havoc>>
 
 TNext == l <= Len(TraceLog) /\ Step /\ l' = l + 1
 TSpec == TInit /\ [][TNext]_tvars
